@@ -1,10 +1,164 @@
+/-
+C09 — code generation is deterministic and history independent.
+Only property statements, one-line proofs (lemmas are in Lemmas/RefNames.lean) and non-vacuity
+examples live here.
+
+What these theorems are about: `Models/RefNames.lean`, a port of the reference-name allocator
+(`make_symbol`, `Context.default_like`, `_register_expression`, `Expr.reference`, `Context.__call__`,
+`Context.call`, `make_ref`, `_register_reference`) in which the state CPython keeps outside the
+context object is an explicit `Ambient` (the `_tmp` counter, the definition registry, the warn
+cache, other contexts' counters, and `seedPerm`: a permutation applied on every read of a hash-keyed
+container).  The list of hidden-state reads in the SOURCE is tied to the model by `census_audited`.
+
+NOT a theorem (decided by differential runs across processes and hash seeds, see fav/props/c09.py):
+that CPython exposes no channel other than those of the census.
+-/
+import FAVerif.Lemmas.RefNames
 import FAVerif.Models.C09Audited
 import FAVerif.Generated.C09Census
-namespace FAVerif.Props.C09
-open FAVerif.Census
 
+namespace FAVerif.Props.C09
+open FAVerif.RefNames FAVerif.Census
+
+/-- **census_audited** (finite, kernel `decide`): the census of nondeterminism / hidden-state sources
+regenerated from the current source on this run — every `id`, `hash`, iteration over a set,
+`os`/`time`/`random`/`uuid`/`tempfile` use, module-level or class-level mutable, mutable default,
+`global`, in-function mutation of such state, cache decorator, `__hash__`/`__eq__`/ordering dunder,
+key-ordering comparison in expr.py, context.py, rewrite.py, algorithms.py, typesystem.py, targets/*.py
+(and the utils.py functions they use) — is exactly the hand-audited list, entry by entry. -/
 theorem census_audited : FAVerif.Gen.C09Census.entries = C09.audited.map (·.entry) := by decide +kernel
 
+/-- **audited_admissible** (finite, kernel `decide`): every audited entry carries a disposition that is
+admissible for its category; `id(` references, `global` statements and cache decorators have no admissible
+disposition at all, an unsorted set iteration only as a listed finding. -/
 theorem audited_admissible : ∀ a ∈ C09.audited, admissible a.entry.cat a.disp = true := by decide +kernel
+
+/-- **seed_irrelevant**: two ambients with the same `_tmp` counter — whatever their seed permutations,
+registries, warn caches, other contexts' counters — drive every request from every context state to
+the same state and the same outputs (all of them, unprinted names included).  Hash-keyed containers
+are consumed through lookups only. -/
+theorem seed_irrelevant (req : List Op) (amb₁ amb₂ : Ambient) (st : State)
+    (h : amb₁.tmpCounter = amb₂.tmpCounter) :
+    (run amb₁ st req).2 = (run amb₂ st req).2 :=
+  (run_seed_irrel req amb₁ amb₂ st h).1
+
+/-- **tmp_unprinted**: one `expr.ref` whose `make_ref` recursion does not reach an anonymous symbol
+(`refSafe`, a condition on kinds / operands / which expressions have a `reference_name` — not on any
+name or counter) returns the same name in any two context states that differ only in the numbers
+carried by anonymous symbols, under any seed permutations and any rendering of construction counters.
+(On the real pipeline the harness checks that every name the model flags as NOT safe is absent from
+the emitted text.) -/
+theorem tmp_unprinted (ks : Nat → String) (p q : SeedPerm) (st₁ st₂ : State) (h : st₁.erase = st₂.erase)
+    (i : Nat) (hs : refSafe st₁ i = true) :
+    (makeRef ks p (fuelOf st₁) st₁ i).2 = (makeRef ks q (fuelOf st₂) st₂ i).2 :=
+  makeRef_tmp_unprinted ks p q h i hs
+
+/- Full statement (false of the code as written, see `noninterference_needs_guard`):
+     ∀ req amb₁ amb₂, names (run amb₁ State.fresh req).2.2 = names (run amb₂ State.fresh req).2.2 -/
+/-- **noninterference** (= `noninterference_partial`; the extra hypothesis is exactly `safeRun`): for a
+fresh context and ANY request (any sequence of symbol / default-like / constant / node constructions,
+counter bumps, `reference`, `Context.__call__` naming, nested `Context.call`s, emitted and unprinted
+`ref`s) whose EMITTED refs do not reach an anonymous symbol, the emitted names are the same under any
+two ambients: any `_tmp` counters, any seed permutations, any registries / caches / other contexts.
+The guard does not depend on the ambient either. -/
+theorem noninterference (req : List Op) (amb₁ amb₂ : Ambient) (h : safeRun amb₁ State.fresh req = true) :
+    names (run amb₁ State.fresh req).2.2 = names (run amb₂ State.fresh req).2.2 ∧
+    safeRun amb₂ State.fresh req = true :=
+  ⟨run_sim req amb₁ amb₂ State.fresh State.fresh rfl h,
+   (safeRun_sim req amb₁ amb₂ State.fresh State.fresh rfl).symm.trans h⟩
+
+/-- **noninterference_needs_guard** (negation witness of the unguarded statement, `decide`; replayed on
+the real code every run: `Context(default_constant_type=…).default_like.ref`): emitting the reference
+of the default-like symbol leaks the process-global counter. -/
+theorem noninterference_needs_guard :
+    names (run { tmpCounter := 0 } State.fresh [.defaultLike "float", .ref 0 true]).2.2 = ["symbol__tmp0"] ∧
+    names (run { tmpCounter := 7 } State.fresh [.defaultLike "float", .ref 0 true]).2.2 = ["symbol__tmp7"] ∧
+    safeRun {} State.fresh [.defaultLike "float", .ref 0 true] = false := by
+  decide +kernel
+
+/-- **order_equivariant**: relabel the construction counters (`intkey`s) of ANY context state by ANY
+function `ρ` (in particular by an order-preserving one: the same request issued after other expressions
+were constructed).  Then every sequence of `ref`s returns exactly the names of the original state with the
+counter tokens rendered through `ρ` — the registry, the cached references, every registered name, every
+suffix number are identical — and the resulting state is the relabelled original result. -/
+theorem order_equivariant (ρ : Nat → Nat) (ks : Nat → String) (p : SeedPerm) (st : State) (ids : List Nat) :
+    runRefs ks p (st.relabel ρ) ids =
+      ((runRefs (ks ∘ ρ) p st ids).1.relabel ρ, (runRefs (ks ∘ ρ) p st ids).2) :=
+  runRefs_relabel ρ ks p ids st
+
+/-- **key_order_equivariant**: the decision `if x.key > y.key: swap` that orders commutative operands
+(rewrite.py `logical_and`, `logical_or`, `_compare`) — Python's lexicographic comparison of keys made of
+strings and construction counters — is invariant under every strictly increasing relabelling of the
+counters: absolute counter values do not matter, only their order. -/
+theorem key_order_equivariant (ρ : Nat → Nat) (hρ : ∀ a b, a < b → ρ a < ρ b) (kx ky : List KeyOrder.Tok) :
+    KeyOrder.swapNeeded (KeyOrder.relabel ρ kx) (KeyOrder.relabel ρ ky) = KeyOrder.swapNeeded kx ky := by
+  unfold KeyOrder.swapNeeded; rw [KeyOrder.cmp_relabel ρ hρ]
+
+/-- **retrace_idempotent**: in ANY context state (hence after any history), asking for the same
+references again returns the same names and leaves the registry and all props untouched: the second
+pass is answered from the cached `props["ref"]` entries.  Stated for the printer's `ref` phase, both on
+`runRefs` and on `run`. -/
+theorem retrace_idempotent (amb : Ambient) (st : State) (ids : List Nat) :
+    let refs := ids.map (fun i => Op.ref i true)
+    (run amb (run amb st refs).2.1 refs).2 = (run amb st refs).2 ∧
+    runRefs natStr amb.seedPerm (runRefs natStr amb.seedPerm st ids).1 ids =
+      ((runRefs natStr amb.seedPerm st ids).1, (runRefs natStr amb.seedPerm st ids).2) := by
+  have h := runRefs_idem natStr amb.seedPerm st ids
+  refine ⟨?_, h⟩
+  simp only [run_refs]
+  rw [h]
+
+/-- **rebuild_hits**: re-issuing the construction operations of a request (symbols, the default-like
+symbol, constants, nodes) in the resulting context — under any ambient — returns the same expression ids
+and changes nothing: hash-consing hits, the cached default-like symbol is reused, the `_tmp` counter is
+not read again. -/
+theorem rebuild_hits (amb amb' : Ambient) (st : State) (build : List Op) (hb : ∀ op ∈ build, isBuild op = true) :
+    (run amb' (run amb st build).2.1 build).2 = ((run amb st build).2.1, (run amb st build).2.2) :=
+  run_again amb' build amb st _ hb (Pre.refl _)
+
+/-- **consumers_perm_invariant**: the ways the audited code consumes hash-ordered containers
+(`sorted(s)`, `len(s)`, `k in s`) do not depend on the iteration order. -/
+theorem consumers_perm_invariant {l₁ l₂ : List Nat} (h : l₁.Perm l₂) (k : Nat) :
+    Consumers.sorted l₁ = Consumers.sorted l₂ ∧ Consumers.len l₁ = Consumers.len l₂ ∧
+    Consumers.mem k l₁ = Consumers.mem k l₂ :=
+  ⟨Consumers.sorted_perm_invariant h, Consumers.len_perm_invariant h, Consumers.mem_perm_invariant h k⟩
+
+/-! ### Non-vacuity: concrete requests meeting the hypotheses -/
+
+/-- A request with a name collision at top level (`r` → `_r_0_`), a nested call whose local also wants
+`r` (→ `__hypot_1_r_0_`: origin prefix, then candidate 0 WITHOUT a lookup), an unprinted reference to the
+anonymous default-like symbol, under a non-trivial ambient: the guard holds and the emitted names are
+those the real code produces (this very history is part of the correspondence corpus). -/
+def demo : List Op :=
+  [.symbol "x" "float", .symbol "y" "float", .node "add" [0, 1], .name 0 "x", .name 1 "y", .ref 2 true,
+   .name 2 "r", .ref 2 true, .node "multiply" [2, 2], .name 3 "r", .ref 3 true,
+   .call "hypot", .node "sqrt" [3], .autoname 4 "r", .ret, .ref 4 true,
+   .defaultLike "float", .ref 5 false, .node "negative" [5], .ref 6 true]
+
+example :
+    safeRun { tmpCounter := 3, seedPerm := SeedPerm.rev } State.fresh demo = true ∧
+    names (run { tmpCounter := 3, seedPerm := SeedPerm.rev } State.fresh demo).2.2 =
+      ["add_x_y", "r", "_r_0_", "__hypot_1_r_0_", "negative_6"] := by decide +kernel
+
+example : (∀ op ∈ demo.filter isBuild, isBuild op = true) ∧ (demo.filter isBuild).length = 7 := by decide +kernel
+
+/-- `relabel` moves a generated counter name and nothing else. -/
+example :
+    (runRefs natStr SeedPerm.id ((run {} State.fresh demo).2.1.relabel (· * 10 + 5)) [6, 4, 3]).2 =
+      ["negative_65", "__hypot_1_r_0_", "_r_0_"] := by decide +kernel
+
+example : KeyOrder.swapNeeded [.s "add", .s "symbol", .n 7, .s "symbol", .n 2] [.s "add", .s "symbol", .n 3, .s "symbol", .n 9] = true ∧
+    KeyOrder.swapNeeded [.s "add", .s "symbol", .n 70, .s "symbol", .n 20] [.s "add", .s "symbol", .n 30, .s "symbol", .n 90] = true := by
+  decide +kernel
+
+/-- Side finding (not a C09 clause; replayed on the real code): inside a `Context.call` two DIFFERENT
+expressions that both carry the reference name `r`, while `r` is taken at top level, receive the SAME
+name `__f_1_r_0_` — the origin-prefixed candidate is free, so the suffix loop is skipped and candidate 0
+is taken without looking it up. -/
+theorem suffix_clash_witness :
+    names (run {} State.fresh
+      [.symbol "x" "float", .symbol "y" "float", .node "add" [0, 1], .name 2 "r", .ref 2 true,
+       .call "f", .node "multiply" [0, 1], .name 3 "r", .node "subtract" [0, 1], .name 4 "r", .ret,
+       .ref 3 true, .ref 4 true]).2.2 = ["r", "__f_1_r_0_", "__f_1_r_0_"] := by decide +kernel
 
 end FAVerif.Props.C09
